@@ -137,14 +137,51 @@ def glyphVerdict (f : Font) (fuel : Nat) (rows : List Row) (g g' : Nat) : Option
       if flatten (rowGlyph rows) fuel g' = some t then none
       else some s!"fail:outline-changed:gid{g}->{g'}"
 
+/-- diagnosis of the short-loca defect: is the start or end offset of new glyph `i` odd while the
+    subset keeps the short `loca` format? -/
+def oddOffsetAt (lf : Nat) (lens : List Nat) (i : Nat) : Bool :=
+  let offs := glyphOffsets 0 lens
+  useShort (lf == 0) (offs.getLastD 0) &&
+    ((offs.getD i 0) % 2 == 1 || (offs.getD (i + 1) 0) % 2 == 1)
+
+def refine (odd : Nat → Bool) (v : String) : String :=
+  -- v = fail:outline-changed:gid<g>-><g'>  |  fail:not-wellformed:glyph-<i>:…
+  if v.startsWith "fail:outline-changed:" then
+    match ((v.splitOn "->").getD 1 "").toNat? with
+    | some g' => if odd g' then v.replace "outline-changed" "outline-changed-odd-offset-in-short-loca" else v
+    | none => v
+  else if v.startsWith "fail:not-wellformed:glyph-" then
+    match (((v.drop 26).toString.splitOn ":").getD 0 "").toNat? with
+    | some i => if odd i then v.replace "not-wellformed" "not-wellformed-odd-offset-in-short-loca" else v
+    | none => v
+  else v
+
+/-- odd offset at the glyph itself or at any glyph of its component tree (model rows) -/
+def oddInTree (lf : Nat) (lens : List Nat) (rows : List Row) (i : Nat) : Bool :=
+  match closure (rowGlyph rows) [i] with
+  | some t => t.any (oddOffsetAt lf lens)
+  | none => oddOffsetAt lf lens i
+
+def modelRows (f : Font) (init : List Nat) : List Row :=
+  match closure f.glyph init with
+  | some needed => (buildRows f (sortGids needed)).getD []
+  | none => []
+
+def subsetLens (f : Font) (init : List Nat) (sl : List (Nat × Nat)) : List Nat :=
+  match closure f.glyph init with
+  | some needed => (sortGids needed).map fun g => (lookupPair sl g).getD 0
+  | none => []
+
 def firstSome {α} (xs : List α) (f : α → Option String) : Option String := xs.findSome? f
 
 def handleTT (fs : List String) (impl : String) : String × String :=
   match (field fs "used").bind parseNatList, (field fs "size").bind String.toNat?,
         (field fs "ng").bind String.toNat?, field fs "cff", (field fs "cmap").bind parsePairs,
-        (field fs "g").bind parseFacts, field fs "allcmap" with
-  | some used, some size, some ng, some cff, some cmap, some facts, some allc =>
+        (field fs "g").bind parseFacts, field fs "allcmap",
+        (field fs "lf").bind String.toNat?, (field fs "sl").bind parsePairs with
+  | some used, some size, some ng, some cff, some cmap, some facts, some allc, some lf, some sl =>
     let f := mkFont facts cmap
+    let odd := oddInTree lf (subsetLens f (initNeeded used f.cmap) sl) (modelRows f (initNeeded used f.cmap))
     let pi := parseImpl impl
     let wfEcho := match pi with | .subset _ _ wf _ => wf | _ => "ok"
     let model :=
@@ -172,13 +209,15 @@ def handleTT (fs : List String) (impl : String) : String × String :=
             | some g' => glyphVerdict f fuel rows g g' with
         | some e => e
         | none => if n ≠ rows.length then "fail:numGlyphs-mismatch" else wfVerdict wf
-    (model, oracle)
-  | _, _, _, _, _, _, _ => ("bad-request", "na")
+    (model, refine odd oracle)
+  | _, _, _, _, _, _, _, _, _ => ("bad-request", "na")
 
 def handleTG (fs : List String) (impl : String) : String × String :=
-  match (field fs "used").bind parseNatList, field fs "cff", (field fs "g").bind parseFacts with
-  | some used, some cff, some facts =>
+  match (field fs "used").bind parseNatList, field fs "cff", (field fs "g").bind parseFacts,
+        (field fs "lf").bind String.toNat?, (field fs "sl").bind parsePairs with
+  | some used, some cff, some facts, some lf, some sl =>
     let f := mkFont facts []
+    let odd := oddInTree lf (subsetLens f (insertNew (used.foldl insertNew []) 0) sl) (modelRows f (insertNew (used.foldl insertNew []) 0))
     let pi := parseImpl impl
     let wfEcho := match pi with | .subset _ _ wf _ => wf | _ => "ok"
     let model :=
@@ -200,8 +239,8 @@ def handleTG (fs : List String) (impl : String) : String × String :=
             | some g' => glyphVerdict f fuel rows g g' with
         | some e => e
         | none => if n ≠ rows.length then "fail:numGlyphs-mismatch" else wfVerdict wf
-    (model, oracle)
-  | _, _, _ => ("bad-request", "na")
+    (model, refine odd oracle)
+  | _, _, _, _, _ => ("bad-request", "na")
 
 def handle (req impl : String) : String × String :=
   match req.splitOn " " with
